@@ -152,18 +152,23 @@ static uint64_t run_op(int opv) {
       for (int k = 0; k < 4; ++k) {
         static const int which[4] = {2, 0, 1, 4};      // N = 256, 4, 16, 16384
         MODULE* m = modAll[which[k]];
-        const uint64_t n = nAll[which[k]], nr = 3, nc = 3;
+        const uint64_t n = nAll[which[k]], nr = 3, nc = var == 0 ? 3 : 4;
+        const uint64_t rs = var == 0 ? nc : var == 1 ? 3 : 1;      // all columns; an odd count below ncols; a single column
         int64_t *mat = al(8 * n * nr * nc), *a = al(8 * n * nr);
         VMP_PMAT* pm = al(bytes_of_vmp_pmat(m, nr, nc));
         VEC_ZNX_DFT* d = al(bytes_of_vec_znx_dft(m, nc));
+        VEC_ZNX_DFT* da = al(bytes_of_vec_znx_dft(m, nr));
         VEC_ZNX_BIG* g = al(bytes_of_vec_znx_big(m, nc));
         uint8_t* t1 = al(vmp_prepare_contiguous_tmp_bytes(m, nr, nc));
-        uint8_t* t2 = al(vmp_apply_dft_tmp_bytes(m, nc, nr, nr, nc));
+        uint8_t* t2 = al(vmp_apply_dft_tmp_bytes(m, nc, nr, nr, nc) + vmp_apply_dft_to_dft_tmp_bytes(m, nc, nr, nr, nc));
         fill_small(mat, n * nr * nc, &s, 10); fill_small(a, n * nr, &s, 10);
         vmp_prepare_contiguous(m, pm, mat, nr, nc, t1);
-        vmp_apply_dft(m, d, nc, a, nr, n, pm, nr, nc, t2);
-        vec_znx_idft(m, g, nc, d, nc, 0); h = fnv(h, g, 8 * n * nc);
-        free(mat); free(a); free(pm); free(d); free(g); free(t1); free(t2);
+        vmp_apply_dft(m, d, rs, a, nr, n, pm, nr, nc, t2);
+        vec_znx_idft(m, g, rs, d, rs, 0); h = fnv(h, g, 8 * n * rs);
+        vec_znx_dft(m, da, nr, a, nr, n);
+        vmp_apply_dft_to_dft(m, d, rs, da, nr, pm, nr, nc, t2);
+        vec_znx_idft(m, g, rs, d, rs, 0); h = fnv(h, g, 8 * n * rs);
+        free(mat); free(a); free(pm); free(d); free(da); free(g); free(t1); free(t2);
       }
       break;
     }
